@@ -286,16 +286,21 @@ def _h(a):
     return [fhex(v) for v in np.asarray(a, dtype=float).ravel()]
 
 
+MILD = [False]   # generators draw parameters of moderate magnitude while MILD[0] (2-D quadrature items: a fixed tensor grid
+                 # cannot resolve features much narrower than its panels)
+
+
 def gen_leaf_spec(rng, shape, kinds):
     n = _size(shape)
     k = kinds[int(rng.integers(0, len(kinds)))]
+    m = 0.35 if MILD[0] else 1.0
     if k == "affine":
-        return dict(kind="affine", shape=list(shape), loc=_h(rng.normal(0, 1.5, n)),
-                    scale=_h(np.exp(rng.normal(0, 0.8, n)) * rng.choice([-1.0, 1.0], n)))
+        return dict(kind="affine", shape=list(shape), loc=_h(rng.normal(0, 1.5 * m, n)),
+                    scale=_h(np.exp(rng.normal(0, 0.8 * m, n)) * rng.choice([-1.0, 1.0], n)))
     if k == "scale":
-        return dict(kind="scale", shape=list(shape), scale=_h(np.exp(rng.normal(0, 0.8, n)) * rng.choice([-1.0, 1.0], n)))
+        return dict(kind="scale", shape=list(shape), scale=_h(np.exp(rng.normal(0, 0.8 * m, n)) * rng.choice([-1.0, 1.0], n)))
     if k == "loc":
-        return dict(kind="loc", shape=list(shape), loc=_h(rng.normal(0, 2, n)))
+        return dict(kind="loc", shape=list(shape), loc=_h(rng.normal(0, 2 * m, n)))
     if k in ("exp", "softplus", "tanh"):
         return dict(kind=k, shape=list(shape))
     if k == "leaky":
@@ -314,7 +319,7 @@ def gen_rqs_spec(rng, like=None):
         iv = tuple(fparse(v) for v in iv) if isinstance(iv, list) else fparse(iv)
         md = fparse(like["min_derivative"])
     init = np.log(np.exp(1 - md) - 1)
-    s = [0.7, 1.5][int(rng.integers(0, 2))]
+    s = 0.4 if MILD[0] else [0.7, 1.5][int(rng.integers(0, 2))]
     return dict(kind="rqs", shape=[], knots=K, interval=[fhex(iv[0]), fhex(iv[1])] if isinstance(iv, tuple) else fhex(iv),
                 min_derivative=fhex(md), softmax_adjust=fhex(1e-2), x_raw=_h(rng.normal(0, s, K)), y_raw=_h(rng.normal(0, s, K)),
                 d_raw=_h(init + rng.normal(0, s, K + 2)))
@@ -337,8 +342,8 @@ def gen_bij_spec(rng, shape, depth, onto_only=False, allow_vec=True):
             return dict(op="vrqs", n=n, items=[first] + [gen_rqs_spec(rng, like=first) for _ in range(n - 1)]) if rng.random() < 0.7 else \
                 dict(op="vrqs", n=n, broadcast=True, items=[first])
         if q < 0.3 and len(shape) == 1 and allow_vec:
-            a = rng.normal(0, 1.0, (n, n))
-            a[np.diag_indices(n)] = np.exp(rng.normal(0, 0.7, n))
+            a = rng.normal(0, 0.4 if MILD[0] else 1.0, (n, n))
+            a[np.diag_indices(n)] = np.exp(rng.normal(0, 0.3 if MILD[0] else 0.7, n))
             return dict(op="tri", leaf=dict(kind="tri", shape=[n], dim=n, lower=bool(rng.integers(0, 2)), arr=_h(a), loc=_h(rng.normal(0, 1, n))))
         if q < 0.36 and len(shape) == 1 and n > 1 and allow_vec:
             return dict(op="perm", perm=[int(v) for v in rng.permutation(n)])
